@@ -304,15 +304,21 @@ func sweepCases17(tier string) []c17Case {
 	}
 	out := []c17Case{}
 	for n := 1; n <= maxn; n++ {
-		for _, re := range enumRx17(n) {
+		for k, re := range enumRx17(n) {
+			if n == 5 && k%6 != 0 {
+				continue // 5 nodes: every sixth expression (their searches are long: many duplicate answers)
+			}
 			named := len(out)%2 == 0
 			out = append(out, c17Case{re, "", 'a', 0, named}, c17Case{re, "", 'a', 1, !named})
 			for _, c := range []rune{'a', 'b'} {
 				out = append(out, c17Case{re, "", c, 2, named}, c17Case{re, "", c, 3, !named})
 			}
 			strs := []string{"", "a", "b", "ab", "ba", "aa", "bb"}
+			if tier == "thorough" && n <= 4 {
+				strs = append(strs, "aab", "aba", "bba")
+			}
 			if n == 5 {
-				strs = []string{"a", "ab", "bb"}
+				strs = []string{"a", "ab"}
 			}
 			for j, s := range strs {
 				out = append(out, c17Case{re, s, 'a', 4 + j%2, named}, c17Case{re, s, 'a', 5 - j%2, !named})
@@ -371,6 +377,9 @@ func runC17(cfg *Config) *Report {
 		desc, obs := "", ""
 		pol := map[bool]string{true: "named placeholders", false: "zero-valued placeholders"}[named]
 		tmo := 6 * time.Second
+		if sweep != nil {
+			tmo = 3 * time.Second
+		}
 		switch kind {
 		case 0: // NullO
 			desc = fmt.Sprintf("NullO(%s, q) [%s]", re, pol)
